@@ -2214,3 +2214,9 @@ Proof.
     split; [apply B1; tauto|]. split; [apply B2; tauto|]. split; [now apply T1|].
     rewrite Ei, E1. cbn [fst]. now apply T1.
 Qed.
+
+Lemma media_type_tables_final :
+  subject_tables_agree = true /\
+  map kind_has_subject [0; 1; 2; 3; 4; 5] = [false; true; false; true; false; true] /\
+  map is_manifest_kind [0; 1; 2; 3; 4; 5] = [false; true; true; true; true; true].
+Proof. vm_compute. repeat split. Qed.
